@@ -218,6 +218,8 @@ def run_go_part(prop, part, tier, seed, builddir, reportdir):
                 "witness": {"log_tail": res.log[m.start():m.start() + 6000]}})
         else:
             res.inconclusive.append("monitor %s exited with %s without a report (see %s)" % (part["name"], rc, logp))
+    elif rc == 0 and not have_report:
+        res.inconclusive.append("monitor %s produced no report (does its -run pattern match a test?) (see %s)" % (part["name"], logp))
     elif rc != 0 and have_report:
         # Harness wrote a report but go test still failed (e.g. race detector
         # exit code, or t.Error used for diagnostics).  Race blocks are
